@@ -45,9 +45,8 @@ func worlds() []*worldDef {
 	// the boundary worlds leave out what cannot interact with the top-count rule
 	boundary := []*eventDef{evEmpty, evStakeNew, evStakeLow, evStakeMore, evUnstakePart, evUnstakeBelowV1,
 		evUnstakeBelowV2, evUnstakeAllV3, evAbsentV3, evGuiltyV3, evReleaseV3}
+	// cheap worlds first: a world that finishes early leaves its share of the budget to the later ones
 	return []*worldDef{
-		{Name: "fk1", What: "Frankenstein height 1: top count 64 from the first block on (everybody above the minimum is elected)",
-			Build: func() *harness.World { return baseWorld("fk1") }, Events: full, Depth: map[string]int{"quick": 4, "thorough": 5}},
 		{Name: "fk0top2", What: "no Frankenstein switch, genesis top count 2 with 3 genesis validators + 1 candidate (V3 is purged at once)",
 			Build: func() *harness.World {
 				w := baseWorld("fk0top2")
@@ -61,7 +60,7 @@ func worlds() []*worldDef {
 				w.Frankenstein = 0
 				w.Gov.StakingOptions.TopValidatorCount = 3
 				return w
-			}, Events: boundary, Depth: map[string]int{"quick": 4, "thorough": 5}},
+			}, Events: boundary, Depth: map[string]int{"quick": 3, "thorough": 5}},
 		{Name: "fk3top2", What: "genesis top count 2, Frankenstein switch to 64 at height 3 (the election rule changes mid-history)",
 			Build: func() *harness.World {
 				w := baseWorld("fk3top2")
@@ -77,6 +76,8 @@ func worlds() []*worldDef {
 				return w
 			}, Events: []*eventDef{evEmpty, evStakeNew, evStakeMore, evUnstakePart, evUnstakeBelowV2, evGuiltyV3, evReleaseV3, evGovMin},
 			Depth: map[string]int{"quick": 3, "thorough": 4}},
+		{Name: "fk1", What: "Frankenstein height 1: top count 64 from the first block on (everybody above the minimum is elected)",
+			Build: func() *harness.World { return baseWorld("fk1") }, Events: full, Depth: map[string]int{"quick": 4, "thorough": 5}},
 	}
 }
 
@@ -105,11 +106,12 @@ type evCtx struct {
 }
 
 type eventDef struct {
-	Name   string // rendered in histories
-	Kind   string // used in signatures and counters
-	HasTx  bool   // carries transactions (then it must be accepted somewhere)
-	Target int    // 1-based index of the validator the operation is about (0 = none / everybody)
-	Blocks func(c *evCtx) []harness.BlockSpec
+	Name    string // rendered in histories
+	Kind    string // used in signatures and counters
+	HasTx   bool   // carries transactions (then it must be accepted somewhere, unless Hostile)
+	Hostile bool   // an operation a correct implementation may always reject (no acceptance demanded)
+	Target  int    // 1-based index of the validator the operation is about (0 = none / everybody)
+	Blocks  func(c *evCtx) []harness.BlockSpec
 }
 
 func nb(txs ...*harness.TxSpec) harness.BlockSpec {
@@ -148,7 +150,7 @@ var (
 		return []harness.BlockSpec{nb(stk.Stake(v, v.Stake, stk.WholeOLT(2500000), c.Tag))}
 	}}
 	// V4 stakes under its own address but announces V1's consensus public key
-	evStakeDupKey = &eventDef{Name: "stake-dupkey(V4,key-of-V1,600000)", Kind: "stake-dupkey", HasTx: true, Target: 4, Blocks: func(c *evCtx) []harness.BlockSpec {
+	evStakeDupKey = &eventDef{Name: "stake-dupkey(V4,key-of-V1,600000)", Kind: "stake-dupkey", HasTx: true, Hostile: true, Target: 4, Blocks: func(c *evCtx) []harness.BlockSpec {
 		v := c.W.Vals[3]
 		return []harness.BlockSpec{nb(stk.StakeRaw(v.Val, v.Stake, c.W.Vals[0].Val.Pub, v.Ecdsa.Pub, v.Name, stk.WholeOLT(600000), c.Tag))}
 	}}
